@@ -44,3 +44,25 @@ package main
 //@   ensures [C16:compile-cpp-off] outputs["cpp"] == "" ==> ncalls("(parser.CppGenerator).Generate") == 0
 //@   ensures [C16:compile-nowhere-else] result == nil ==> ncalls("parser.WriteCodeToFile") == ite(outputs["lua"] != "", 1, 0) + ite(outputs["rust"] != "", 1, 0) + ite(outputs["go"] != "", 1, 0) + ite(outputs["java"] != "", 1, 0) + ite(outputs["python"] != "", 1, 0) + ite(outputs["cpp"] != "", 1, 0)
 //@   ensures [C16:compile-no-direct-fs] nfs() == 0
+
+// ---------------------------------------------------------------- flag table and wiring (C16; table from readme.md)
+
+//@ func init#1
+//@   ensures [C16:flags-compile] ncalls("(*pflag.FlagSet).StringVarP") == 7 && calledat("(*pflag.FlagSet).StringVarP", 1, globaladdr(file), "file", "f") && calledat("(*pflag.FlagSet).StringVarP", 1, globaladdr(rsOutput), "rs_output", "r") && calledat("(*pflag.FlagSet).StringVarP", 1, globaladdr(luaOutput), "lua_output", "l") && calledat("(*pflag.FlagSet).StringVarP", 1, globaladdr(javaOutput), "java_output", "j") && calledat("(*pflag.FlagSet).StringVarP", 1, globaladdr(goOutput), "go_output", "g") && calledat("(*pflag.FlagSet).StringVarP", 1, globaladdr(cppOutput), "cpp_output", "c") && calledat("(*pflag.FlagSet).StringVarP", 1, globaladdr(pyOutput), "py_output", "p")
+//@ func init#2
+//@   ensures [C16:flags-format] ncalls("(*pflag.FlagSet).StringVarP") == 2 && calledat("(*pflag.FlagSet).StringVarP", 1, globaladdr(file), "file", "f") && calledat("(*pflag.FlagSet).StringVarP", 1, globaladdr(dsl), "dsl", "d")
+
+//@ func init$1
+//@   ensures [C16:flag-wiring] ncalls("cmd.Compile") == 1 && callarg("cmd.Compile", 0, 0) == file && atcall("cmd.Compile", 0, mapstr(callarg("cmd.Compile", 0, 1), "lua")) == luaOutput && atcall("cmd.Compile", 0, mapstr(callarg("cmd.Compile", 0, 1), "rust")) == rsOutput && atcall("cmd.Compile", 0, mapstr(callarg("cmd.Compile", 0, 1), "go")) == goOutput && atcall("cmd.Compile", 0, mapstr(callarg("cmd.Compile", 0, 1), "java")) == javaOutput && atcall("cmd.Compile", 0, mapstr(callarg("cmd.Compile", 0, 1), "python")) == pyOutput && atcall("cmd.Compile", 0, mapstr(callarg("cmd.Compile", 0, 1), "cpp")) == cppOutput
+
+// ---------------------------------------------------------------- Execute: argument rewriting and exit status (C16, C12)
+
+//@ func isSubcommand
+//@   requires arg == arg
+
+//@ func Execute
+//@   exits [C16:exec-error-exit] exitcode() == 1 && callres("(*cobra.Command).Execute", 0, 0) != 0
+//@   ensures [C16:exec-ok] callres("(*cobra.Command).Execute", 0, 0) == 0
+//@   ensures [C16:args-insert] old(len(os.Args)) > 1 && ncalls("cmd.isSubcommand") == 1 && callres("cmd.isSubcommand", 0, 0) == false ==> len(os.Args) == old(len(os.Args)) + 1 && os.Args[0] == old(os.Args[0]) && os.Args[1] == "compile" && forall(i, 1, old(len(os.Args)), os.Args[i+1] == old(os.Args[i]))
+//@   ensures [C16:args-keep] old(len(os.Args)) > 1 && ncalls("cmd.isSubcommand") == 1 && callres("cmd.isSubcommand", 0, 0) == true ==> len(os.Args) == old(len(os.Args)) && forall(i, 0, old(len(os.Args)), os.Args[i] == old(os.Args[i]))
+//@   ensures [C16:args-subcommand-asked] old(len(os.Args)) > 1 ==> ncalls("cmd.isSubcommand") == 1 && callarg("cmd.isSubcommand", 0, 0) == old(os.Args[1])
